@@ -384,46 +384,50 @@ func fileReadAux(L *LState, file *lFile, idx int) int {
 			}
 			L.Push(LString(string(buf)))
 		case LString:
-			options := L.CheckString(i)
-			if len(options) > 0 && options[0] != '*' {
-				L.ArgError(2, "invalid options:"+options)
+			// as liolib: only the character after '*' counts ("*line", "*number", "*all")
+			options := string(lv)
+			if len(options) == 0 || options[0] != '*' {
+				L.ArgError(i, "invalid option")
 			}
-			for _, opt := range options[1:] {
-				switch opt {
-				case 'n':
-					v, ok := readNumber(file.reader)
-					if !ok { // no numeral here (or end of file): nil, what was read before stays
-						L.Push(LNil)
-						goto normalreturn
-					}
-					L.Push(v)
-				case 'a':
-					var buf []byte
-					buf, err = io.ReadAll(file.reader)
-					if err == io.EOF {
-						L.Push(emptyLString)
-						goto normalreturn
-					}
-					if err != nil {
-						goto errreturn
-					}
-					L.Push(LString(string(buf)))
-				case 'l':
-					var buf []byte
-					var iseof bool
-					buf, err, iseof = readBufioLine(file.reader)
-					if iseof {
-						L.Push(LNil)
-						goto normalreturn
-					}
-					if err != nil {
-						goto errreturn
-					}
-					L.Push(LString(string(buf)))
-				default:
-					L.ArgError(2, "invalid options:"+string(opt))
+			if len(options) < 2 {
+				L.ArgError(i, "invalid format")
+			}
+			switch options[1] {
+			case 'n':
+				v, ok := readNumber(file.reader)
+				if !ok { // no numeral here (or end of file): nil, what was read before stays
+					L.Push(LNil)
+					goto normalreturn
 				}
+				L.Push(v)
+			case 'a':
+				var buf []byte
+				buf, err = io.ReadAll(file.reader)
+				if err == io.EOF {
+					L.Push(emptyLString)
+					goto normalreturn
+				}
+				if err != nil {
+					goto errreturn
+				}
+				L.Push(LString(string(buf)))
+			case 'l':
+				var buf []byte
+				var iseof bool
+				buf, err, iseof = readBufioLine(file.reader)
+				if iseof {
+					L.Push(LNil)
+					goto normalreturn
+				}
+				if err != nil {
+					goto errreturn
+				}
+				L.Push(LString(string(buf)))
+			default:
+				L.ArgError(i, "invalid format")
 			}
+		default:
+			L.ArgError(i, "invalid option")
 		}
 	}
 normalreturn:
